@@ -245,7 +245,7 @@ def run_case(case, g, tier, res):
 
 # earlier calls (rule file, parameter file) before the call under test; R = reduced rule file (alkane types only), F / P = copies
 # of the bundled rule / parameter files, None = bundled default
-FILE_HISTORIES = [[], [("R", "P")], [("R", None)], [(None, None)], [("R", "P"), (None, None)], [("F", None)], [(None, "P")]]
+FILE_HISTORIES = [[], [("R", "P")], [("R", None)], [(None, None)], [("R", "P"), (None, None)], [("F", None)], [(None, "P")], [("F", "P")], [("R", "P"), ("F", "P")]]
 
 
 def _file_copies(ff):
@@ -277,7 +277,7 @@ def file_sequence(g, ff, history, smi):
     paths = _file_copies(ff)
     try:
         def snapshot(params, mol):
-            return [(a.GetIdx(), a.GetSymbol(), params[a.GetIdx()].bond_type_name, float(params[a.GetIdx()].mass), float(params[a.GetIdx()].charge),
+            return [(a.GetIdx(), a.GetSymbol(), params[a.GetIdx()].bond_type_name, int(params[a.GetIdx()].bond_type_id), float(params[a.GetIdx()].mass), float(params[a.GetIdx()].charge),
                      float(params[a.GetIdx()].sigma), float(params[a.GetIdx()].epsilon)) for a in mol.GetAtoms() if a.GetIdx() in params]
 
         ff._global_nonbonded_itp_file = ff._global_smarts_rule_file = ff._global_assignment_class = None
@@ -286,7 +286,7 @@ def file_sequence(g, ff, history, smi):
         ff._global_nonbonded_itp_file = ff._global_smarts_rule_file = ff._global_assignment_class = None
         for (r, p_) in history:
             try:
-                g.Molecule("CCCC").generate().get_forcefield_types(paths.get(r), paths.get(p_))
+                g.Molecule("CCCC" if r == "R" else "CC(=O)OCC").generate().get_forcefield_types(paths.get(r), paths.get(p_))
             except ff.FfAssignmentError:
                 pass
             except Exception as e:
@@ -307,7 +307,7 @@ def file_sequence(g, ff, history, smi):
 
 # molecules (single-token, generated through the public API) the bundled rules type completely / cannot type completely
 TYPABLE = ["CCO", "CCCCO", "CC(=O)OC", "Cc1ccccc1"]
-BETWEEN = ["[2H]C([2H])([2H])O", "[13CH3]O", "C[N+](C)(C)C", "C[SiH3]", "OO", "O", "CCCC"]
+BETWEEN = ["[2H]C([2H])([2H])O", "[13CH3]O", "C[N+](C)(C)C", "C[SiH3]", "OO", "O", "CCCC", "CB(C)C", "C[Se]C", "OB(O)c1ccccc1", "CC(=O)OC", "Cc1ccccc1"]
 
 
 def molgen_typing_sequence(g, ff, first, between):
@@ -342,7 +342,7 @@ def molgen_typing_sequence(g, ff, first, between):
                 continue
             if a.GetIsotope() == 0 and abs(p_.mass - pt.GetAtomicWeight(a.GetAtomicNum())) > 0.05:
                 problems.append(("element-mass", f"{label} {smi}: atom {a.GetIdx()} {a.GetSymbol()} has mass {p_.mass} ({p_.bond_type_name})"))
-            snap.append((a.GetIdx(), a.GetSymbol(), p_.bond_type_name, float(p_.mass), float(p_.charge), float(p_.sigma), float(p_.epsilon)))
+            snap.append((a.GetIdx(), a.GetSymbol(), p_.bond_type_name, int(p_.bond_type_id), float(p_.mass), float(p_.charge), float(p_.sigma), float(p_.epsilon)))
         return snap
 
     s1 = type_once(first, "first typing of")
